@@ -286,7 +286,7 @@ def step (x : Sess) (toks : List String) : Step :=
       match x.find id with
       | none => nohandle x
       | some hd =>
-        if hd.kind == .bytes && hd.owned && !hd.null then simple (x.put id { hd with kind := .obj, null := true }) "r=ok"
+        if hd.kind == .bytes && hd.owned && !hd.null then simple (x.hold id) "r=ok"
         else { sess := some x, out := "bad-op" }
     | none => { sess := some x, out := "bad-op" }
   | ["dealloc", h] =>
